@@ -50,8 +50,61 @@ def pname(p):
     return '%s-%s' % (f(p[0]), f(p[1]))
 
 
+def _safety_tables(ctx, prog):
+    """R10.9: the helpers a caller builds its safety table with.  `SafetyDistances::distances(pairs)` must file every value
+    under its own (a, b) pair; `SafetyDistances::standard(mode)` is touch-only for the environment and for the robot itself,
+    without special pairs, in the mode it is given."""
+    from ..absint import Interp, Iv, Sym
+    ctx.rule('R10.9', 'SafetyDistances::distances files each value under its own pair; SafetyDistances::standard = touch-only to environment and robot, no special pairs, the given mode')
+    tv = _const_value(prog, 'collisions::TOUCH_ONLY')
+    db = [b for p_, b in prog.bodies.items() if p_.endswith('collisions::SafetyDistances::distances')]
+    if len(db) == 1:
+        b = db[0]
+        ctx.fn(b)
+        log = []
+
+        def val(I, st, a):
+            while isinstance(a, tuple) and a and a[0] in ('ref', 'refval', 'mref'):
+                a = I.deref(a, st)
+            return a
+
+        def h_new(I, st, a, t, b_):
+            return Sym('map')
+
+        def h_insert(I, st, a, t, b_):
+            log.append((val(I, st, a[1]), val(I, st, a[2])))
+            return ('enum', 0, ())
+        pairs = (((1, 2), Iv(0.5)), ((3, 1000), Iv(0.125)), ((100, 5), Iv(0.25)))
+        I = Interp(prog, {'HashMap::with_capacity': h_new, 'HashMap::new': h_new, 'HashMap::insert': h_insert}, fuel=20000, max_paths=8)
+        try:
+            outs = I.run(b.path, [('refval', pairs, ())])
+            got = [((k[0], k[1]), v.lo) for k, v in log if isinstance(k, tuple) and len(k) == 2 and isinstance(v, Iv)]
+            want = [((a, c), v.lo) for (a, c), v in pairs]
+            ok = len(outs) == 1 and outs[0].ret == Sym('map') and sorted(got) == sorted(want)
+            ctx.check(ok, 'R10.9', 'distances', b.where(0), b.path, 'every (pair, value) given must be filed under that pair: filed %s' % got, found=str(got), expected=str(want), detail='by interpretation')
+        except (absint.Unsupported, absint.Undecided):
+            pass
+    sb = [b for p_, b in prog.bodies.items() if p_.endswith('collisions::SafetyDistances::standard')]
+    if len(sb) == 1:
+        b = sb[0]
+        ctx.fn(b)
+        for i, j, st in b.stmts():
+            rv = st['rv']
+            if rv['k'] == 'agg' and isinstance(rv.get('kind'), dict) and (rv['kind'].get('adt') or '').endswith('SafetyDistances'):
+                t = b.rv_term(rv, (i, j))
+                vals = dict(zip(rv['kind'].get('fields') or [], t[2:]))
+                env, rob = util.const_val(vals.get('to_environment')), util.const_val(vals.get('to_robot_default'))
+                sp = strip(vals.get('special_distances'))
+                ok = tv is not None and env == tv and rob == tv and util.is_param(vals.get('mode'), 1) and isinstance(sp, tuple) and sp[0] == 'call' and \
+                    cname(sp[1]).split('::')[-1] in ('new', 'default', 'with_capacity')
+                ctx.check(ok, 'R10.9', 'standard', b.where(i, j), b.path,
+                          'the standard table must be touch-only (TOUCH_ONLY) towards the environment and within the robot, without special pairs, in the mode given',
+                          found='to_environment=%s to_robot_default=%s special=%s mode=%s' % (env, rob, show(sp, maxdepth=2), show(vals.get('mode'), maxdepth=2)))
+
+
 def run(ctx):
     prog = ctx.prog
+    _safety_tables(ctx, prog)
     ctx.rule('R10.1', 'extracted pair table == specification (10 non-adjacent link pairs; link x env; tool x env; tool x links 1-4; base x links 2-6; tool x base), each once')
     ctx.rule('R10.2', 'with exactly one pair exempt (NEVER_COLLIDES) the evaluated table loses exactly that pair (either key order; also pairs naming J1 and adjacent pairs)')
     ctx.rule('R10.3', 'each task pairs reporting index k with the shape and transform of body k')
